@@ -385,7 +385,7 @@ func (l *Ledger) markOwned(g *G, v Value) {
 func (l *Ledger) access(g *G, addr *Value, write bool, pos token.Pos) {
 	vm := l.vm
 	inLib := g.fr != nil && g.fr.info.isMangos
-	if mi, ok := l.cells[addr]; ok && mi.released && inLib {
+	if mi, ok := l.cells[addr]; ok && mi.released && (inLib || (g.fr != nil && g.fr.info.isEnv && !g.isMain && !g.helper)) {
 		// the pool's own Get path re-initialises after poolGet, so any access here is after release
 		vm.ex.recordViolation(vm, g, "ledger/use-after-release", fmt.Sprintf("library %s of message #%d at %s after it was released at %s", pick2(write, "write", "read"), mi.id, vm.posStr(pos), vm.posStr(mi.relPos)), vm.posStr(pos), nil)
 	}
